@@ -70,6 +70,62 @@ func kvMap(n *sx.Node) map[string]string {
 	return m
 }
 
+func validKV(n *sx.Node) bool {
+	if !n.IsList {
+		return false
+	}
+	for _, e := range n.List {
+		if !e.IsList || len(e.List) != 2 || e.List[0].IsList || e.List[1].IsList || e.List[0].Atom == "" {
+			return false
+		}
+	}
+	return true
+}
+
+func validTree(t *sx.Node) bool {
+	if !t.IsList || t.Len() < 5 || t.At(0).IsList {
+		return false
+	}
+	switch t.At(0).Str() {
+	case "A":
+	case "T", "C":
+		if t.Len() != 5 {
+			return false
+		}
+	default:
+		return false
+	}
+	for i := 1; i <= 4; i++ {
+		if !validKV(t.At(i)) {
+			return false
+		}
+	}
+	for i := 5; i < t.Len(); i++ {
+		if !validTree(t.At(i)) {
+			return false
+		}
+	}
+	return true
+}
+
+func validInput(in *sx.Node) bool {
+	if !in.IsList || in.Len() != 4 || in.At(0).IsList || !in.At(1).IsList || !in.At(3).IsList {
+		return false
+	}
+	if l := in.At(1).Len(); l != 0 && l != 3 {
+		return false
+	}
+	if l := in.At(3).Len(); l != 0 && l != 2 {
+		return false
+	}
+	for _, m := range append(append([]*sx.Node{}, in.At(1).List...), in.At(3).List...) {
+		if !validKV(m) {
+			return false
+		}
+	}
+	return validTree(in.At(2)) && in.At(2).At(0).Str() == "A"
+}
+
 func collectKeys(n *sx.Node, set map[string]bool) {
 	// every (key value) pair anywhere in the input
 	if !n.IsList {
@@ -391,8 +447,8 @@ func runImpl(input string) (string, error) {
 	if err != nil {
 		return "", err
 	}
-	if in.Len() != 4 {
-		return "", fmt.Errorf("bad input arity")
+	if !validInput(in) {
+		return "", fmt.Errorf("malformed input")
 	}
 	keys := universe(in)
 	for _, k := range keys {
